@@ -202,6 +202,31 @@ def scenarios() -> Dict[str, Tuple[Scenario, Dict[Any, Any]]]:
         ("r", "call_function", ADD, ("%x", "%e0"), {}),  # residual: skip = x
         ("output", "output", "output", (("%r",),), {}),
     ], {})
+    # a side input gates the branch: the softmax is on the branch (an ancestor of the branch end other than the skip)
+    # although it is not computed from the skip tensor
+    S["softmax of a second input multiplies the residual branch"] = ([
+        ("x", "placeholder", "x", (), {}), ("c", "placeholder", "c", (), {}),
+        ("w", "get_attr", "w", (), {}),
+        ("f", "call_function", E(F + "linear"), ("%x", "%w", None), {}),
+        ("s", "call_function", E(F + "softmax"), ("%c",), {"dim": -1}),
+        ("m", "call_function", E("_operator.mul"), ("%f", "%s"), {}),  # unmapped op joining the two
+        ("r", "call_function", ADD, ("%x", "%m"), {}),  # branch contains softmax: tau 0.01
+        ("output", "output", "output", (("%r",),), {}),
+    ], {})
+    # "no later residual addition" is a dependency relation, not a position in the node list
+    S["auxiliary head traced before the last residual block"] = ([
+        ("x", "placeholder", "x", (), {}),
+        ("w1", "get_attr", "w1", (), {}), ("w2", "get_attr", "w2", (), {}), ("w3", "get_attr", "w3", (), {}),
+        ("f1", "call_function", E(F + "linear"), ("%x", "%w1", None), {}),
+        ("g1", "call_function", E(F + "gelu"), ("%f1",), {}),
+        ("r1", "call_function", ADD, ("%x", "%g1"), {}),
+        ("aux", "call_function", E(F + "linear"), ("%r1", "%w3", None), {}),  # feeds no residual add: unconstrained
+        ("ga", "call_function", E(F + "gelu"), ("%aux",), {}),
+        ("f2", "call_function", E(F + "linear"), ("%r1", "%w2", None), {}),
+        ("g2", "call_function", E(F + "gelu"), ("%f2",), {}),
+        ("r2", "call_function", ADD, ("%r1", "%g2"), {}),
+        ("output", "output", "output", (("%r2", "%ga"),), {}),
+    ], {})
     return S
 
 
@@ -506,7 +531,7 @@ def check(report: Report, repo: Repo) -> None:
     from .c17 import check_root_entry
 
     check_root_entry(report, repo, "R3-unit_scale")  # the transform is only applied at all if TorchDynamo traces the root
-    report.floor("scenario graphs executed", n_sc, 8)
+    report.floor("scenario graphs executed", n_sc, 10)
 
     # ---- R1 call forms of torch.nn's own wrapper modules (what TorchDynamo inlines for nn.Softmax, nn.GELU, ...):
     # read from the installed torch/nn/modules/*.py with ast; each must bind to the unit-scaled counterpart
@@ -535,24 +560,27 @@ def check(report: Report, repo: Repo) -> None:
         return Obj(cls_name, attrs={"weight": P(f"{nm}.w", None), "bias": P(f"{nm}.b", None), "_children": [], "__module__": "user_code.layers"}, term=None)
 
     lin, emb, ln = child("torch.nn.Linear", "lin"), child("torch.nn.Embedding", "emb"), child("torch.nn.LayerNorm", "ln")
+    embp = child("torch.nn.Embedding", "embp")  # an embedding with a padding row: "weights to unit variance" has no exception for it
+    emb.attrs["padding_idx"] = None
+    embp.attrs["padding_idx"] = 1
     prev_backend = user_function("earlier_backend", ["gm", "example_inputs"])
     prev_backend.attrs["__qualname__"] = "make_earlier_backend.<locals>.earlier_backend"
     mod = Obj("torch.nn.Module", term=None)
-    mod.attrs.update({"forward": O("m.forward"), "_children": [("lin", lin), ("emb", emb), ("ln", ln)], "__module__": "user_code.models", "backends": [prev_backend]})
+    mod.attrs.update({"forward": O("m.forward"), "_children": [("lin", lin), ("emb", emb), ("embp", embp), ("ln", ln)], "__module__": "user_code.models", "backends": [prev_backend]})
     key = user_function("user_fn", ["x"])
     rep = {key: user_function("user_target", ["x"])}
     cons = f"{US}::unit_scale"
     try:
         it3.events = []
-        before = {id(c): dict(c.attrs) for c in (lin, emb, ln)}
+        before = {id(c): dict(c.attrs) for c in (lin, emb, embp, ln)}
         res = it3.call_function(us, [mod, rep], {})
         ok = isinstance(res, Obj) and res is not mod
         report.add("R3-unit_scale", f"{cons}::returns-copy", ok, "unit_scale returns a transformed copy", fmt(res)[:80], "a new module")
         if ok:
-            untouched = all(all(c.attrs.get(k) is v for k, v in before[id(c)].items()) for c in (lin, emb, ln)) and mod.attrs.get("backends") == [prev_backend] and "rerun_transform" not in mod.attrs
+            untouched = all(all(c.attrs.get(k) is v for k, v in before[id(c)].items()) for c in (lin, emb, embp, ln)) and mod.attrs.get("backends") == [prev_backend] and "rerun_transform" not in mod.attrs
             report.add("R3-unit_scale", f"{cons}::input-untouched", untouched, "the argument module (its weights, biases and backend list) is never re-initialised or modified", "modified" if not untouched else "unchanged", "unchanged")
             ch = dict(res.attrs.get("_children", []))
-            for nm, want in (("lin", True), ("emb", True), ("ln", False)):
+            for nm, want in (("lin", True), ("emb", True), ("embp", True), ("ln", False)):
                 c = ch.get(nm)
                 w = TM.term_of(c.attrs.get("weight")) if isinstance(c, Obj) else None
                 b_ = TM.term_of(c.attrs.get("bias")) if isinstance(c, Obj) else None
